@@ -54,7 +54,7 @@ CHECKS = {
     },
     "C01": {
         "quick": [
-            {"name": LEDGER + "ZZ_C01_D1", "maporder": True, "native_repeat": 20, "reach": ["D1 end"], "bound": "two ledgers fed the same 1..3 updated items (symbolic values); EVERY permutation of every map iteration in SetFinality/Commit/refresh, independently per replica; with <=2 items also a second block with updates, a removal and a re-creation"},
+            {"name": LEDGER + "ZZ_C01_D1", "maporder": True, "native_repeat": 20, "reach": ["D1 end", "D1 two removals"], "bound": "two ledgers fed the same 1..3 updated items (symbolic values); EVERY permutation of every map iteration in SetFinality/Commit/refresh, independently per replica; with <=2 items also a second block with updates, a removal and a re-creation, and optionally single-item blocks up to 5 items followed by a block that removes two of them (the 4 pairs whose removal order changes the real IAVL root)"},
             {"name": LEDGER + "ZZ_C01_D3", "reach": ["D3 end"], "bound": "3 ledger keys with symbolic leading bytes: Less is a strict total order, sorting is input-order independent"},
             {"name": NODE + "ZZ_C06_M1", "reach": ["M1 end"], "bound": "node-local mempool / query traffic (twin of C06): one injected CheckTx or Query around block 3", "validate": 4},
             {"name": NODE + "ZZ_C07_R1", "reach": ["R1 end"], "bound": "a replica restarted at a block boundary against one that kept running (twin of C07): 'process' is node-local", "validate": 4},
@@ -81,6 +81,7 @@ CHECKS = {
             {"name": P + "ctrlers/types.ZZ_C03_I1", "reach": ["I1 equal encodings", "I1 different encodings"], "bound": "two symbolic transactions of the same type (8 types): all numeric fields symbolic over their full range (incl. every payload field), byte/string fields drawn from two values; equal signed encodings => equal fields"},
             {"name": NODE + "ZZ_C03_I23", "reach": ["I23 success", "I23 forged rejected", "I23 honest failure"] + OK_ALL, "bound": TXB + "; signature: honest | signed by another key | signed for another chain id | one of 8 fields (amount, nonce, gas, receiver, time, version, sender, payload/gas price) altered after signing"},
             {"name": NODE + "ZZ_C03_I4", "reach": ["I4 end", "I4 honest second tx accepted"], "bound": "an honest transfer (symbolic amount) is delivered; then, in the same or the next block, a second transaction of the same sender (transfer or set-document, symbolic amount, other receiver, the then-current nonce) carrying the FIRST transaction's signature; crypto.Sig2Addr's own body is executed (only the curve recovery under it is a stub)"},
+            {"name": NODE + "ZZ_C03_I5", "reach": ["I5 end"], "bound": "twin replicas, 4 validators (stake limiter active); replica B's block 3 starts with a forged transaction (delegation / unbonding / transfer / deployment from the block menu, signed with another account's key, optionally to an address without account), then both deliver the same honest menu transaction; block 4 with one more; transaction results, validator updates and application hashes compared"},
         ],
         "bounds": "one transaction; 8 single-field alterations; one lifted signature after the signed transaction was processed; the RLP encoding is modelled as an injective function of the struct the repository hands to rlp.Encode (its own narrowing casts are executed)",
         "outside": "the cryptography itself (A-SIG); injectivity of go-ethereum's RLP for the encoded struct (A-CODEC); CheckTx (does not verify signatures by design and has no effects - C06)",
@@ -116,6 +117,7 @@ CHECKS = {
     "C06": {
         "quick": [
             {"name": NODE + "ZZ_C06_M1", "reach": ["M1 end"], "bound": "twin replicas; genesis with 4 validators (powers symbolic inside disjoint bands, so the stake limiter is active and the ranking fixed), 5 funded accounts, concrete Test1 governance parameters; blocks 1-2 empty; block 3 and block 4 each with one transaction from {delegation A3->A0/A1 of power 1 or 2^41, unstaking of a genesis stake, transfer A3->A4 of symbolic amount, contract deployment by A3}; replica B additionally serves ONE request at one of 5 positions around block 3 (before BeginBlock, before DeliverTx, before EndBlock, before Commit, after Commit): CheckTx of a transaction of the same menu (or of block 3's own transaction) or a Query (account / delegatee / total power / gov params)", "validate": 8},
+            {"name": NODE + "ZZ_C06_M2", "reach": ["M2 end", "M2 unbonded and re-bonded"], "bound": "2 validators; block 3 = [A1 unbonds its only stake, A1 bonds again] (a ledger item deleted and re-created in one block); replica B serves a CheckTx of a delegation to A1 (symbolic power) at one of 5 positions of that block; blocks 4 and 5 with votes"},
         ],
         "bounds": "one injected CheckTx/Query in 5 slots, 2 blocks observed (result codes, gas used, validator updates, application hash)",
         "outside": "more than one injected request (one suffices for a first divergence by the unwinding argument of DESIGN section 4/C06); interleavings finer than one ABCI call (the application mutex serialises them); symbolic governance parameters",
@@ -124,6 +126,7 @@ CHECKS = {
     "C19": {
         "quick": [
             {"name": NODE + "ZZ_C19_Q1", "validate": 40, "reach": ["Q1 end"], "bound": "history of 3 committed blocks (genesis; transfer of a symbolic amount; delegation of symbolic power + reward issuance), block 4 in flight with a delivered transfer and a pending CheckTx; queries account x2, delegatee x2, stakes, stakes/total_power, reward, gov_params at height 0 (latest), 1, 2, 3 and 4 (future), repeated for the past height after block 4 is committed"},
+            {"name": GOV + "ZZ_C19_Q2", "reach": ["Q2 end"], "bound": "governance controller: one proposal through ledger versions 1 (absent), 2 (voting), 3 (frozen), 4 (applied, removed), stopped after 2, 3 or 4 versions; by-hash proposal query at every height so far and at a future height"},
         ],
         "bounds": "heights 0..h+1 with h = 3; one in-flight block; one pending mempool check",
         "outside": "the proposal query (the handlers share the ImmutableLedgerAt path); stakes/voting_power (reads current parameters, not in the statement); vm_call; 'serving queries never alters what is committed' is decided by the C06 twin (Query injection)",
@@ -131,7 +134,8 @@ CHECKS = {
     },
     "C07": {
         "quick": [
-            {"name": NODE + "ZZ_C07_R1", "reach": ["R1 end"], "bound": "genesis with validators A0,A1 and 3 funded accounts, Test1 governance parameters with symbolic signing window and minimum in [1,3]; blocks 1-2 empty; block 3 with votes (A0 signs, A1 signs or not) and one transaction from {none, delegation A2->A0/A1 of symbolic power, transfer of symbolic amount, A1 unbonds its genesis stake}; restart on a copy of the data directory after block 3; blocks 4 (one transaction of the same menu) and 5 on both replicas", "validate": 8},
+            {"name": NODE + "ZZ_C07_R1", "reach": ["R1 end"], "bound": "genesis with validators A0,A1 and 3 funded accounts, Test1 governance parameters with symbolic signing window and minimum in [1,3]; blocks 1-2 empty; block 3 with votes (A0 signs, A1 signs or not) and one transaction from {none, delegation A2->A0/A1 of symbolic power, transfer of symbolic amount, A1 unbonds its genesis stake}; restart on a copy of the data directory after block 3; blocks 4 (one transaction of the same menu) and 5 on both replicas; outputs compared and the validator updates of both replicas applied cumulatively to the set the engine holds", "validate": 8},
+            {"name": NODE + "ZZ_C07_R2", "reach": ["R2 end"], "bound": "one validator signing every block (rewards issued), restart after block 9, 10, 11 or 12 (around the reward-hash checkpoint taken every 10th ledger version), two more blocks on both replicas", "validate": 4},
         ],
         "bounds": "restart after h = 3, two blocks after the restart",
         "outside": "restart points other than after block 3; histories with governance changes or contract state before the restart; more than 2 validators",
@@ -141,7 +145,7 @@ CHECKS = {
         "quick": [
             {"name": NODE + "ZZ_C08_K1", "reach": ["K1 end"], "bound": "one block (optional menu transaction): inventory of durable writes via the verif hook"},
             {"name": NODE + "ZZ_C08_K3", "reach": ["K3 end"], "bound": "process death after InitChain / BeginBlock(1) / EndBlock(1) and before the first Commit; restart, Info, InitChain again, block 1"},
-            {"name": NODE + "ZZ_C08_K2", "native_repeat": 0, "reach": ["K2 recovered", "K2 no crash", "K2 replay failed"], "bound": "twin: replica A never crashes; replica C dies immediately before the k-th durable write (k = 1..12, i.e. every write position of Commit and 'no crash') of block 3 (one menu transaction with votes); restart on a copy of the data directory; Info; replay of block 3 when the old height is reported; block 4 with one menu transaction on both"},
+            {"name": NODE + "ZZ_C08_K2", "native_repeat": 0, "reach": ["K2 recovered", "K2 no crash", "K2 replay failed"], "bound": "twin: replica A never crashes; replica C dies immediately before the k-th durable write (k = 1..12, i.e. every write position of Commit and 'no crash') of block 3 (one menu transaction with votes; block 2 carried votes in which A1 signed or not); restart on a copy of the data directory; Info; replay of block 3 when the old height is reported; block 4 with one menu transaction on both"},
         ],
         "bounds": "1 interrupted block, all 11 write positions of its Commit, 1 block after recovery",
         "outside": "torn writes inside one leveldb batch / SaveVersion and fsync semantics (each hooked write is atomic and durable in the model and natively); crashes in two consecutive blocks; the block with the periodic reward-hash record (every 10th height)",
@@ -152,11 +156,13 @@ CHECKS = {
             {"name": NODE + "ZZ_C09_P1small", "reach": ["P1 end"], "bound": "one hostile transaction (garbage bytes | empty | TrxProto with type 0..9, sender in {known, unknown, 19 bytes}, receiver in {known, 21 bytes, zero}, payload in {absent, garbage, boundary-valued message}, symbolic amount/gas/nonce/time/price, signature in {garbage, genuine}) to DeliverTx or CheckTx; then a well-formed transfer, EndBlock, Commit", "validate": 6},
             {"name": NODE + "ZZ_C09_P2", "reach": ["P2 end"], "bound": "one Query: 11 paths x data length in {0,19,20,32,39,40,41} (vm_call: < 40 only) x height in [-2,5]; then an empty block"},
             {"name": NODE + "ZZ_C09_P3", "reach": ["P3 end"], "bound": TXB + "; delivered in a block or sent to CheckTx", "validate": 6},
+            {"name": P + "ctrlers/vm/evm.ZZ_C09_P4", "reach": ["P4 end"], "bound": "the chain's own ecrecover precompile (address 0x01) run directly on call data of 15 lengths around the field boundaries (0..200 bytes), zero-filled with a symbolic recovery byte"},
         ],
         "thorough": [
             {"name": NODE + "ZZ_C09_P3", "reach": ["P3 end"], "bound": TXB + "; delivered in a block or sent to CheckTx"},
             {"name": NODE + "ZZ_C09_P1", "reach": ["P1 end"], "bound": "as P1small with 7 sender shapes x 7 receiver shapes x 3 signature shapes", "validate": 20},
             {"name": NODE + "ZZ_C09_P2", "reach": ["P2 end"], "bound": "as quick"},
+            {"name": P + "ctrlers/vm/evm.ZZ_C09_P4", "reach": ["P4 end"], "bound": "the chain's own ecrecover precompile (address 0x01) run directly on call data of 15 lengths around the field boundaries (0..200 bytes), zero-filled with a symbolic recovery byte"},
         ],
         "bounds": "one hostile request after genesis + 1-2 empty blocks, 1 validator, 2 funded accounts; field lengths enumerated, numeric fields symbolic over their full range",
         "outside": "panics inside protobuf/RLP/JSON/iavl/go-ethereum on hostile bytes (A-CODEC: decoding is total - error or a well-typed message); vm_call with >= 40 bytes (needs the consensus engine's RPC environment); resource exhaustion; A-SUPPLY (balances < 2^100) and A-GOV (gas price < 2^64) exclude the AmountToPower / fee+amount overflow panics listed in DESIGN appendix B #10/#11",
@@ -167,6 +173,7 @@ CHECKS = {
         "quick": [
             {"name": STAKE + "ZZ_C10_U1", "reach": ["U1 end"], "bound": "all pairs of subsets of a 4-address pool (address-sorted, duplicate-free), symbolic powers"},
             {"name": STAKE + "ZZ_C10_U23", "reach": ["U23 end"], "bound": "<=3 committed delegatees (+1 overlay-only), symbolic self/delegated power, symbolic MinValidatorStake, MaxValidatorCnt in {1,2,3}; blocks 2,3,4 with a committed change of delegatee 0 in between"},
+            {"name": NODE + "ZZ_C07_R1", "reach": ["R1 end"], "bound": "validator updates across a restart (twin of C07): whatever the restarted node announces, applied to the set the consensus engine holds, gives the set the running node arrives at", "validate": 4},
         ],
         "bounds": "U1: <=4 old x <=4 new validators; U2/U3/U5: <=3 delegatees, 3 consecutive blocks",
         "outside": "more delegatees; Tendermint's own application of updates (A-TM); validator set after a process restart (shares the C07 restart check)",
@@ -177,6 +184,7 @@ CHECKS = {
             {"name": STAKE + "ZZ_C11_B1", "reach": ["B1 end", "staking ok", "staking rejected", "unstaking ok", "unstaking rejected"], "bound": "state: delegatees A0,A1 each optional with a self stake and an optional delegated stake, optional unbonding stake, all powers symbolic; one staking or unstaking tx with arbitrary sender/target/stake reference/amount; then Commit"},
             {"name": STAKE + "ZZ_C14_S45", "reach": ["S45 end", "S45 jailed"], "bound": "slashing (0..2 pieces of evidence) and downtime jailing from the same arbitrary state, then the bookkeeping invariant"},
             {"name": STAKE + "ZZ_C11_B3", "reach": ["B3 end", "staking ok", "unstaking ok"], "bound": "one delegatee; 3 transactions in one block from {stake to A0 by A0/A2, unstake any existing stake by A0/A2} incl. delete/re-create/modify of the delegatee; then Commit"},
+            {"name": STAKE + "ZZ_C11_B4", "reach": ["B4 end", "staking ok", "unstaking ok"], "bound": "the same arbitrary state; one staking / unstaking transaction run in CheckTx mode (Exec == false): delegatee records and the unbonding ledger - in-block view and what the next Commit persists - are unchanged"},
         ],
         "bounds": "<=2 delegatees x <=3 stakes; 1 step from arbitrary state (B1), 3 steps in one block (B3)",
         "outside": "more stakes per delegatee; stake limiter active (needs >=3 validators)",
@@ -187,6 +195,7 @@ CHECKS = {
             {"name": STAKE + "ZZ_C12_O12", "reach": ["O12 accepted", "O12 rejected"], "bound": "arbitrary state as in C11/B1, one unstaking tx with arbitrary sender/target/stake reference at a symbolic height"},
             {"name": STAKE + "ZZ_C12_O3", "reach": ["O3 end"], "bound": "1..3 unbonding stakes with symbolic owner/power/refund height, EndBlock+Commit at symbolic height h and h+1, unbonding period changed in between"},
             {"name": STAKE + "ZZ_C12_O4", "reach": [], "bound": "two genesis validators (zero TxHash) unbond in one block"},
+            {"name": STAKE + "ZZ_C11_B4", "reach": ["B4 end", "unstaking ok"], "bound": "the same arbitrary state; one staking / unstaking transaction run in CheckTx mode (Exec == false): delegatee records and the unbonding ledger - in-block view and what the next Commit persists - are unchanged"},
             {"name": STAKE + "ZZ_C14_S45", "reach": ["S45 jailed"], "bound": "force-release by downtime jailing: every stake of the jailed validator is frozen with refund height = height + unbonding period in force"},
         ],
         "bounds": "<=2 delegatees, <=3 unbonding stakes, two consecutive block ends",
@@ -195,7 +204,7 @@ CHECKS = {
     },
     "C13": {
         "quick": [
-            {"name": STAKE + "ZZ_C13_W12", "reach": ["W12 end"], "bound": "2 delegatees x <=3 stakes at version 1, one more delegation at version 2; BeginBlock at heights 2..6 with votes (signed / power-matching symbolic per validator)"},
+            {"name": STAKE + "ZZ_C13_W12", "reach": ["W12 end", "W12 second block"], "bound": "2 delegatees x <=3 stakes at version 1, one more delegation at version 2; BeginBlock at heights 2..6 with votes (signed / power-matching symbolic per validator); at height 2 a second reward block after rewardPerPower changed to another symbolic value (same parameter version)"},
             {"name": STAKE + "ZZ_C13_W34", "reach": ["W34 accepted", "W34 rejected"], "bound": "one reward record (optional, committed or not) with two symbolic issuances; one withdraw tx with symbolic ReqAmt and Amount, then a second one"},
         ],
         "bounds": "<=2 validators voting, <=3 stakes each, heights 2..6",
